@@ -37,6 +37,7 @@ type Case struct {
 	// hostile texts, most of which hold a rejected file.
 	Lenient    bool `json:"lenient,omitempty"`
 	IgnoreCirc bool `json:"ignore_circular,omitempty"`
+	StoreUses  bool `json:"store_uses,omitempty"`
 	// Features the generator put in (for classes and signatures)
 	Features []string `json:"features,omitempty"`
 }
@@ -83,6 +84,7 @@ func run(c Case, perm []int) result {
 	ms := yang.NewModules()
 	ms.ParseOptions.DeviateOptions.IgnoreDeviateNotSupported = c.Ignore
 	ms.ParseOptions.IgnoreSubmoduleCircularDependencies = c.IgnoreCirc
+	ms.ParseOptions.StoreUses = c.StoreUses
 	var res result
 	perFile := make([]string, len(c.Sources))
 	for _, i := range perm {
@@ -755,6 +757,7 @@ func gen(t *rapid.T) Case {
 		}
 	}
 	c.CLI = rapid.IntRange(0, 11).Draw(t, "cli") == 0
+	c.StoreUses = !c.CLI && rapid.IntRange(0, 3).Draw(t, "store-uses") == 0
 	if !c.CLI && rapid.IntRange(0, 7).Draw(t, "one-source-name") == 0 {
 		// the caller hands every text over under one name (Modules.Parse takes any string): positions
 		// in different texts then compare equal, and nothing but the texts themselves may decide an order
@@ -770,7 +773,7 @@ func TestCheck(t *testing.T) {
 	ev.Run(t, ev.Spec[Case]{
 		ID:    "C05",
 		Level: "exploration",
-		Rule: "module sets from the schema model biased toward ties and conflicts: modules of one name with and without revisions plus dated and undated importers (an eighth of the cases), identities of equal name in different modules under one base, deviations with several deviate statements, two deviating modules, chained augments, and in a third of the cases 1-3 planted faults spread over the files (unknown types and bad ranges, two augments of one name from two modules, missing augment targets, unknown groupings); every load permutation for up to 3 sources (6), model order plus 7 random orders beyond; each order is run 4 times in fresh module sets inside one process (the Go runtime re-randomises map iteration on every range). One twelfth of the cases additionally write the sources to a temporary directory and run the goyang command built from the working tree 6 times per format (tree, types) with two argument orders. " +
+		Rule: "module sets from the schema model biased toward ties and conflicts: modules of one name with and without revisions plus dated and undated importers (an eighth of the cases), identities of equal name in different modules under one base, deviations with several deviate statements, two deviating modules, chained augments, and in a third of the cases 1-3 planted faults spread over the files (unknown types and bad ranges, two augments of one name from two modules, missing augment targets, unknown groupings, typedef and grouping cycles, late augments that collide or chain, several unresolved identity bases behind one prefix); a twentieth of the cases are mirror modules (2-3 modules of one layout whose typedefs, groupings or identities form a cycle through the imports, handed over under one source name or under their own), an eighth of the remaining cases without the command hand every text over under one source name; every load permutation for up to 3 sources (6), model order plus 7 random orders beyond; each order is run 4 times in fresh module sets inside one process (the Go runtime re-randomises map iteration on every range). One twelfth of the cases additionally write the sources to a temporary directory and run the goyang command built from the working tree 6 times per format (tree, types) with two argument orders. " +
 			"Oracle: all runs give the identical result: load errors per source, the Process() error strings in order, and the complete canonical dump (all module and submodule trees with types, defaults, attributes, identity value lists in order); every error list is ordered by file, line, column where entries carry a position and holds no string twice; the command's exit status, stdout and stderr are byte-identical. " +
 			"Non-trivial = at least 2 sources and at least one tie/conflict/fault feature; distinct by case",
 		Assumptions: []string{
